@@ -32,9 +32,10 @@ import SF.Props.C11
     mean square dominates 0.04·d² (`trendFlex_bound`, `reFlex_bound`).  LaguerreRSI ∈ [0,1] and |Fisher| ≤ ln 199 are C07.
   * LaguerreFilter also has geometric fading memory: a weighted norm of the four stage differences contracts by (1+γ)/2 per
     step once the inputs coincide (`laguerre_fading`).
-  Not yet proved (decided by the common-tail runs of `./check C09`): the geometric convergence of RoofingFilter (a two-pole
-  smoother fed a geometrically decaying input) and of the normalised outputs of TrendFlex / ReFlex / LaguerreRSI /
-  EhlersFisherTransform.
+  * RoofingFilter (ℝ) has geometric fading memory for every N ≥ 2, M ≥ 1: the smoother's and the high-pass's Lyapunov
+    functionals contract jointly (`roofing_fading`, cascade of two contracting sections, `DcGain.roof_joint_decay`).
+  Not proved (decided by the common-tail runs of `./check C09`): the geometric convergence of the NORMALISED outputs of
+  TrendFlex / ReFlex / LaguerreRSI / EhlersFisherTransform (ratios whose denominators themselves fade).
 -/
 namespace SF.C09
 open SF SF.Spec
@@ -294,5 +295,70 @@ theorem reFlex_view_bound (N : Nat) (hN : 3 ≤ N) (xs : List ℝ) (v : ℝ)
     (h : (rflexCore (α := ℝ) N).outAfter xs = .ok (some v)) : |v| ≤ 5 := by
   rw [C11.reFlex_eq N hN] at h
   exact FlexBound.reFlex_bound N xs v (by simpa using h)
+
+end SF.C09.Real
+
+/-! ### RoofingFilter: geometric fading memory (two streams that merge), and the output form for SuperSmoother -/
+namespace SF.C09.Real
+open SF SF.Spec
+
+/-- the difference stream of two histories with a common tail is the difference of the heads followed by zeros -/
+theorem lin_common_tail (p1 p2 t : List ℝ) (h : p1.length = p2.length) :
+    Linear.lin 1 (-1) (p1 ++ t) (p2 ++ t) = Linear.lin 1 (-1) p1 p2 ++ List.replicate t.length 0 := by
+  unfold Linear.lin
+  rw [List.zipWith_append h]
+  congr 1
+  induction t with
+  | nil => rfl
+  | cons x r ih => simp [List.replicate_succ, ih]
+
+/-- **fading memory of RoofingFilter(N, M), every N ≥ 2, M ≥ 1**: two histories `p1 ++ t`, `p2 ++ t` of equal length whose
+common tail `t` has k + 2 values.  By superposition (C10) the difference of the outputs is the filter's response to the
+stream (p1 − p2) followed by zeros; the joint Lyapunov functional `roofW` of that response (smoother + weighted high-pass)
+is multiplied by `roofRate N M` < 1 at every step after the second common value and dominates the output difference:
+geometric convergence, nothing persists -/
+theorem roofing_fading (N M : Nat) (hN : 2 ≤ N) (hM : 0 < M) (p1 p2 t : List ℝ) (hlen : p1.length = p2.length)
+    (hl : N ≤ p1.length) (k : Nat) (ht : t.length = k + 2) (v w : ℝ)
+    (hv : Spec.roofing N M (p1 ++ t) = some v) (hw : Spec.roofing N M (p2 ++ t) = some w) :
+    |v - w| ≤ DcGain.roofRate N M ^ k * DcGain.roofW N M (Linear.lin 1 (-1) p1 p2 ++ [0] ++ [0]) := by
+  have hlin := C10.roofing_linear (α := ℝ) N M 1 (-1) (p1 ++ t) (p2 ++ t) (by simp [hlen])
+  rw [hv, hw, lin_common_tail p1 p2 t hlen, ht] at hlin
+  have e : List.replicate (k + 2) (0 : ℝ) = [0] ++ [0] ++ List.replicate k 0 := by
+    simp [List.replicate_succ]
+  rw [e, ← List.append_assoc, ← List.append_assoc] at hlin
+  have hd : |1 * v + -1 * w| ≤ DcGain.roofRate N M ^ k * DcGain.roofW N M (Linear.lin 1 (-1) p1 p2 ++ [0] ++ [0]) :=
+    C10.Real.roofing_dc_decays N M hN hM (Linear.lin 1 (-1) p1 p2) 0
+      (by simp [Linear.lin, List.length_zipWith, hlen]; omega) k _ (by simpa [Linear.olin] using hlin)
+  have e2 : v - w = 1 * v + -1 * w := by ring
+  rw [e2]; exact hd
+
+theorem roofing_fading_rate (N M : Nat) (hN : 2 ≤ N) (hM : 0 < M) : 0 < DcGain.roofRate N M ∧ DcGain.roofRate N M < 1 :=
+  DcGain.roofRate_lt_one N M hN hM
+
+/-- … and for the view itself (state machine), through C11 -/
+theorem roofing_view_fading (N M : Nat) (hN : 2 ≤ N) (hM : 0 < M) (p1 p2 t : List ℝ) (hlen : p1.length = p2.length)
+    (hl : N ≤ p1.length) (k : Nat) (ht : t.length = k + 2) (v w : ℝ)
+    (hv : (roofCoreU (α := ℝ) N M).outAfter (p1 ++ t) = .ok (some v))
+    (hw : (roofCoreU (α := ℝ) N M).outAfter (p2 ++ t) = .ok (some w)) :
+    |v - w| ≤ DcGain.roofRate N M ^ k * DcGain.roofW N M (Linear.lin 1 (-1) p1 p2 ++ [0] ++ [0]) := by
+  rw [C11.roofing_eq N M hM] at hv hw
+  exact roofing_fading N M hN hM p1 p2 t hlen hl k ht v w (by simpa using hv) (by simpa using hw)
+
+/-- **SuperSmoother fading memory, in terms of the two outputs**: histories `p1 ++ t`, `p2 ++ t`, |p1| = |p2|, common tail of
+k + 1 values: |out₁ − out₂| ≤ ((1 + a1)/2)^k · V(state of the difference stream one step after the merge) -/
+theorem superSmoother_fading_outputs (N : Nat) (hN : 0 < N) (p1 p2 t : List ℝ) (hlen : p1.length = p2.length)
+    (k : Nat) (ht : t.length = k + 1) (v w : ℝ)
+    (hv : Spec.superSmoother N (p1 ++ t) = some v) (hw : Spec.superSmoother N (p2 ++ t) = some w) :
+    |v - w| ≤ ((1 + SsStable.ssA N) / 2) ^ k *
+      DcGain.Vc (TwoPole.pole (SsStable.ssA N) (44422 / 10000 / N)) (SsStable.ssA N) 0
+        (SS.foldState (Spec.ssCoef (α := ℝ) N) 0 (Linear.lin 1 (-1) p1 p2 ++ [0])) := by
+  have hlin := C10.superSmoother_linear (α := ℝ) N 1 (-1) (p1 ++ t) (p2 ++ t) (by simp [hlen])
+  rw [hv, hw, lin_common_tail p1 p2 t hlen, ht] at hlin
+  have e : List.replicate (k + 1) (0 : ℝ) = [0] ++ List.replicate k 0 := by simp [List.replicate_succ]
+  rw [e, ← List.append_assoc] at hlin
+  have hd := C10.Real.superSmoother_dc_converges N hN (Linear.lin 1 (-1) p1 p2) 0 k (1 * v + -1 * w)
+    (by simpa [Linear.olin] using hlin)
+  have e2 : v - w = 1 * v + -1 * w - 0 := by ring
+  rw [e2]; exact hd
 
 end SF.C09.Real
